@@ -62,6 +62,9 @@ def _make_elab16(idx):
     def hook(frame, next_inner):
         e = ELAB16.get(str(idx), ["none"])
         LOG.append(["elab16", idx, e[0]])
+        if e[-1] == "hidden":
+            frame.hide = True        # as customize(hide=True) would do
+            e = e[:-1]
         if e[0] == "none":
             return None
         if e[0] == "replace":
